@@ -19,13 +19,17 @@ import rpload
 
 HOSTS = [('node001', False, False), ('node002', False, False), ('nid00003', False, False),
          ('login1', True, False), ('batch2', False, True), ('c5', False, False),
-         ('node010', False, False), ('gpu-a', False, False), ('batchlogin', True, True)]
+         ('node010', False, False), ('gpu-a', False, False), ('batchlogin', True, True),
+         # PBS vnodes: among these the list order is the lexical order of the names
+         ('vn0001', False, False), ('vn0002', False, False), ('vn0010', False, False), ('vn0011', False, False),
+         ('vn0100', False, False)]
+VNODES = [9, 10, 11, 12, 13]
 
 
 def gen_case(rng):
     kind = rng.choice(['torque', 'ccm', 'cobalt', 'lsf', 'pbspro', 'slurm', 'fork', 'torque', 'lsf'])
     nh   = rng.randint(1, 6)
-    cand = [i for i in range(len(HOSTS)) if kind == 'lsf' or not (HOSTS[i][1] or HOSTS[i][2])]
+    cand = [i for i in range(len(HOSTS)) if i not in VNODES and (kind == 'lsf' or not (HOSTS[i][1] or HOSTS[i][2]))]
     hosts = rng.sample(cand, min(nh, len(cand)))
     style = rng.choice(['per_slot', 'per_node', 'mixed'])
     slots = rng.choice([1, 2, 4])
@@ -83,11 +87,42 @@ def gen_case(rng):
         env_cpus_force = None
     env_cpus = (env_cpus_force or rng.choice([None, 4, 8])) if kind == 'slurm' else None
     reach = [i for i in range(len(HOSTS)) if rng.random() < 0.8]      # ids of the hosts that answer the ssh probe
-    return {'op': 'init', 'kind': kind, 'cfg': cfg,
+    exec_vnode = None
+    if kind == 'pbspro' and rng.random() < 0.6:
+        # qstat answers: nodes come from the exec_vnode attribute - chunks of vnode slices; a vnode may
+        # occur in several chunks (several chunks packed on one host) and a chunk may span vnodes
+        vns   = rng.sample(VNODES, rng.randint(1, len(VNODES)))
+        ncpus = rng.choice([2, 4, 8])
+        exec_vnode = []
+        for _ in range(rng.randint(1, 6)):
+            ch = [[v, ncpus] for v in rng.sample(vns, rng.randint(1, min(2, len(vns))))]
+            exec_vnode.append(ch)
+        if rng.random() < 0.05: exec_vnode[-1][-1][1] = ncpus * 2       # vnodes of different sizes
+        used  = sorted(set(e[0] for ch in exec_vnode for e in ch))
+        hosts = used
+        cfg['nodes'] = rng.choice([0, 1, len(used), max(1, len(used) - 1)])
+        cfg['cores'] = rng.choice([1, 2, ncpus])
+        room = (cfg['nodes'] or 1) - 1
+        cfg['agent_nodes']   = rng.choice([0, min(1, room)])
+        cfg['service_nodes'] = 0
+        cfg['blocked_cores'] = rng.choice([[], [], [0]])
+    return {'op': 'init', 'kind': kind, 'cfg': cfg, 'exec_vnode': exec_vnode,
             'lines': [None if x is None else x if isinstance(x, str) else
                       {'id': x, 'login': HOSTS[x][1], 'batch': HOSTS[x][2]} for x in raw],
             'hosts': [{'id': h, 'login': HOSTS[h][1], 'batch': HOSTS[h][2]} for h in hosts],
             'env_cpus': env_cpus, 'detected': rng.choice([4, 8, 64]), 'reach': reach}
+
+
+def qstat_text(exec_vnode):
+    """`qstat -f <jobid>` output with the exec_vnode attribute wrapped over continuation lines"""
+    rhs = '+'.join('(' + '+'.join('%s:ncpus=%d' % (HOSTS[v][0], n) for v, n in ch) + ')' for ch in exec_vnode)
+    lines = ['Job Id: 1.x', '    Job_Name = rp', '    exec_host = x/0*8']
+    first, rest = rhs[:40], rhs[40:]
+    lines.append('    exec_vnode = ' + first)
+    while rest:
+        lines.append('\t' + rest[:60]); rest = rest[60:]
+    lines += ['    Hold_Types = n', '    Join_Path = n']
+    return '\n'.join(lines) + '\n'
 
 
 class FakeProc(object):
@@ -141,6 +176,8 @@ def run_real(rp, case, scratch):
             FakeProc.results = {'localhost': 0 in case['reach']}
         rmb.Process = FakeProc
         ru.sh_callout = lambda *a, **k: ('', 'no qstat', 1)
+        if case.get('exec_vnode'):
+            ru.sh_callout = lambda *a, **k: (qstat_text(case['exec_vnode']), '', 0)
         multiprocessing.cpu_count = lambda: case['detected']
         # RMInfo's class-level default lists are shared between instances (one RM per process in
         # production); give every case a fresh process-like state
